@@ -8,7 +8,7 @@ R13.5 outbound future yields the captured request id on every arm
 """
 import re
 from paths import refine_cuts, region_uncovered
-from common import exit_desc, short, field_calls
+from common import exit_desc, short, field_calls, park_nodes, removal_discharged, derives_from_field
 import guards
 
 EXPLANATION = ("Obligation-container rules over all MIR CFG paths of RequestResponseProtocol: each request context taken out of "
@@ -38,9 +38,13 @@ def r13_1(ctx, fx):
     n = 0
     for key in sorted(fx.find(r"^protocol::request_response::RequestResponseProtocol::")):
         fn = fx.fn(key)
-        for i, c in enumerate(field_calls(fn, r"HashMap::insert$", "pending_dials")):
+        for i, c in enumerate(park_nodes(fn, "pending_dials")):
             n += 1
             ctx.bodies.add((fx.cfg, key))
+            if not c.matches(r"HashMap::insert$"):
+                ctx.ob("R13.1", "%s/pending_dials-park#%d:appends" % (short(key), i), True, site=fn.site(c.node), cfg=fx.cfg,
+                       detail="request parked by appending to the per-peer collection (%s)" % c.name)
+                continue
             # (a) displaced value inspected: the call's destination is read by something other than a drop
             used = False
             d = c.dest[0]
@@ -54,8 +58,7 @@ def r13_1(ctx, fx):
                     if x["k"] == "call" and any(op_place_is(a, d) for a in x["args"]):
                         used = True
                 else:
-                    rv = x["rv"]
-                    if mentions(rv, d):
+                    if mentions(x["rv"], d):
                         used = True
             # (b) a negative lookup on the same map dominates the insert
             looks = [l.node for l in field_calls(fn, r"HashMap::(contains_key|get|get_mut|entry|remove)$", "pending_dials")]
@@ -64,7 +67,7 @@ def r13_1(ctx, fx):
                    detail="insert into pending_dials (keyed by PeerId, not fresh) neither inspects the displaced RequestContext nor is "
                           "guarded by a lookup on the same map: a second request to a peer that is still being dialed silently replaces the "
                           "first, which then never gets a terminal event")
-    ctx.anchor("R13.1", "pending_dials.insert sites", n, 1, cfg=fx.cfg)
+    ctx.anchor("R13.1", "sites parking a request in pending_dials", n, 1, cfg=fx.cfg)
 
 
 def op_place_is(o, local):
@@ -108,24 +111,20 @@ def r13_2(ctx, fx):
             found += 1
             cuts = refine_cuts(fn, rm, chain)
             exits = dict(fn.exits())
-            r = fn.reach([rm.node], avoid=dis, cut=cuts, after=True)
-            bad = [n for n in exits if n in r]
             allowed = set()
             if meth == "on_substream_event":
                 # documented: a request cancelled by the user yields no event. The exit must be guarded by the
                 # RequestResponseError::Canceled discriminant edge.
+                r = fn.reach([rm.node], avoid=dis, cut=cuts, after=True)
                 for sw in fn.discr_switches():
                     if sw[2] and sw[2].endswith("RequestResponseError"):
                         for lab in fn.variant_edges(sw, "Canceled"):
-                            rc = fn.reach([n for n, l in fn.succs(sw[0]) if l == lab], avoid=dis)
-                            for n in bad:
-                                if n in rc and fn.only_via(n, sw[0], [lab], starts=[rm.node]):
+                            for n in exits:
+                                if n in r and fn.only_via(n, sw[0], [lab], starts=[rm.node]):
                                     allowed.add(n)
+            bad = removal_discharged(fn, rm, chain, dis, allowed_exits=allowed)
             seen = set()
-            for n in bad:
-                if n in allowed:
-                    continue
-                path = fn.witness_path([rm.node], [n], avoid=dis, cut=cuts, after=True)
+            for n, path in bad:
                 d = exit_desc(fn, n, exits[n], path)
                 if d in seen:
                     continue
@@ -135,7 +134,7 @@ def r13_2(ctx, fx):
                               "another container; witness %s" % (field, fn.site(rm.node), fn.path_sites(path)))
             if not seen:
                 ctx.ob("R13.2", "%s/%s.remove#%d:discharged" % (meth, field, i), True, site=fn.site(rm.node), cfg=fx.cfg,
-                       detail="exits after removal: %d, cancel-exits allowed: %d" % (len(bad), len(allowed)))
+                       detail="cancel-exits allowed: %d" % len(allowed))
     # on_connection_closed: loop over context.active sends RequestFailed for each id
     key = RR + "on_connection_closed::{closure#0}"
     fn = ctx.fn(fx, key, "R13.2")
@@ -164,8 +163,7 @@ def r13_2(ctx, fx):
 def r13_3(ctx, fx):
     fn = ctx.fn(fx, RR + "on_send_request", "R13.3")
     if fn is not None:
-        stores = {c.node for c in field_calls(fn, r"HashMap::insert$", "pending_dials")} | \
-                 {c.node for c in field_calls(fn, r"HashMap::insert$", "pending_outbound")}
+        stores = {c.node for c in park_nodes(fn, "pending_dials")} | {c.node for c in park_nodes(fn, "pending_outbound")}
         ctx.anchor("R13.3", "on_send_request: store sites", len(stores), 2, cfg=fx.cfg)
         okexits = [n for n, sh in fn.exits(r"^Ok")]
         r = fn.reach([fn.entry], avoid=stores)
